@@ -72,7 +72,7 @@ structure Img where
 namespace Img
 variable (m : Img)
 
-def cs : Nat := 2^m.h.cb
+def cs : Nat := 1 <<< m.h.cb
 def word (off : Nat) : Nat := be m.b off 8
 def l1Entry (i : Nat) : Nat := if i < m.h.l1Size then m.word (m.h.l1Off + i * 8) else 0
 def l2Entries : Nat := m.cs / 8
@@ -85,17 +85,17 @@ def l2Entry (g : Nat) : Nat :=
   if l2off = 0 then 0 else m.word (l2off + (g % m.l2Entries) * 8)
 
 def rtEntries : Nat := m.h.rtClusters * m.cs / 8
-def rbEntries : Nat := m.cs * 8 / 2^m.h.ro
+def rbEntries : Nat := (m.cs * 8) >>> m.h.ro
 
 /-- refcount field `i` of the refcount block at byte offset `rbOff`:
     big-endian for widths ≥ 8, LSB-first inside a byte for sub-byte widths -/
 def rcField (rbOff i : Nat) : Nat :=
-  let bits := 2^m.h.ro
+  let bits := 1 <<< m.h.ro
   if bits ≥ 8 then be m.b (rbOff + i * (bits / 8)) (bits / 8)
   else
     let per := 8 / bits
     let byte := be m.b (rbOff + i / per) 1
-    (byte / 2^((i % per) * bits)) % 2^bits
+    (byte >>> ((i % per) * bits)) % (1 <<< bits)
 
 /-- stored refcount of host cluster `c` (0 when no refcount block covers it) -/
 def refcount (c : Nat) : Nat :=
@@ -182,15 +182,6 @@ def collectRefs (m : Img) : Refs := Id.run do
               else if l2e / 2^63 % 2 = 1 then r := r.err s!"copied-without-offset guest={g}"
   return r
 
-/-- highest cluster index that matters for the comparison -/
-def maxCluster (m : Img) (r : Refs) : Nat :=
-  let a := (m.b.size + m.cs - 1) / m.cs
-  let bnd := r.cnt.fold (fun acc c _ => max acc (c + 1)) a
-  -- every cluster covered by an existing refblock
-  let covered := (List.range m.rtEntries).foldl (fun acc i =>
-    if m.word (m.h.rtOff + i * 8) ≠ 0 then max acc ((i + 1) * m.rbEntries) else acc) 0
-  max bnd (min covered (bnd + 64))
-
 structure Verdict where
   structural : List String      -- alignment / reserved bits / flags / double references
   under : List String           -- refcount lower than references
@@ -201,10 +192,19 @@ def judge (m : Img) : Verdict := Id.run do
   let r := collectRefs m
   let mut under : List String := []
   let mut leaks : List String := []
-  for c in [0:maxCluster m r] do
-    let refs := r.cnt.getD c 0
+  -- under-count: only referenced clusters can be under-counted (a garbage pointer may
+  -- name an absurdly large cluster number: never iterate up to it)
+  let refd := (r.cnt.fold (fun acc c n => acc.push (c, n)) #[]).qsort (fun a b => a.1 < b.1)
+  for (c, refs) in refd do
     let rc := m.refcount c
     if rc < refs then under := s!"undercount cluster={c} rc={rc} refs={refs}" :: under
+  -- leaks: clusters inside the file (plus a margin covered by existing refblocks)
+  let fileCl := (m.b.size + m.cs - 1) / m.cs
+  let covered := (List.range m.rtEntries).foldl (fun acc i =>
+    if m.word (m.h.rtOff + i * 8) ≠ 0 then max acc ((i + 1) * m.rbEntries) else acc) 0
+  for c in [0:max fileCl (min covered (fileCl + 64))] do
+    let refs := r.cnt.getD c 0
+    let rc := m.refcount c
     if rc > refs then leaks := s!"leak cluster={c} rc={rc} refs={refs}" :: leaks
   return { structural := r.errs.reverse, under := under.reverse, leaks := leaks.reverse }
 
